@@ -148,7 +148,7 @@ class argument_interpreter:
                 # Arguments with lower expert level are preferentially
                 # chosen if otherwise they would be ambiguous.
                 scores = [
-                    score - (exp_lvl / 100)
+                    score - (exp_lvl / 100) if score == max_score else float("-inf")
                     for score, exp_lvl in zip(scores, expert_level)
                 ]
                 max_score = max(scores)
